@@ -56,9 +56,11 @@ def solve_cli(year, forms, input_file, script=None, prompt_missing=False, writeb
     out = io.StringIO()
     log = []
     exc = None
+    from hv import world
     with scripted_input(script or [], log), contextlib.redirect_stdout(out):
         try:
-            habutax.solve(args)
+            with world.cpu_limit():
+                habutax.solve(args)
         except KeyboardInterrupt as e:
             exc = ('KeyboardInterrupt', '')
         except SystemExit as e:
